@@ -424,7 +424,9 @@ def g_freeform(r):
     if r.random() < 0.3:
         # the same builder is converted again after more segments were drawn (documented: may be called more than once)
         ff["again"] = {"pts": [[v(), v()] for _ in range(r.randint(1, 3))], "close": r.random() < 0.5,
-                       "ox": r.randint(0, 3000000), "oy": r.randint(0, 3000000)}
+                       "ox": r.randint(0, 3000000), "oy": r.randint(0, 3000000), "move_only": r.random() < 0.35}
+    if r.random() < 0.25:
+        ff["iter"] = True      # vertices handed over as a one-shot iterator
     return ff
 
 
@@ -443,7 +445,9 @@ def _do_freeform(w, shapes, ff, check=True):
         if i > 0:
             fb.move_to(c["move"][0], c["move"][1])
             verts.append((_r(c["move"][0]), _r(c["move"][1])))
-        fb.add_line_segments([tuple(p) for p in c["pts"]], close=c["close"])
+        pts_ = [tuple(p) for p in c["pts"]]
+        # the vertices may be any iterable (documented): a list, or a one-shot iterator such as zip(xs, ys)
+        fb.add_line_segments(zip([p[0] for p in pts_], [p[1] for p in pts_]) if ff.get("iter") else pts_, close=c["close"])
         verts.extend((_r(p[0]), _r(p[1])) for p in c["pts"])
     sp = fb.convert_to_shape(ff["ox"], ff["oy"])
     if not check:
@@ -451,8 +455,13 @@ def _do_freeform(w, shapes, ff, check=True):
     _check_freeform(w, sp, verts, sx, sy, sc, ff["ox"], ff["oy"])
     if ff.get("again"):
         ag = ff["again"]
-        fb.add_line_segments([tuple(p) for p in ag["pts"]], close=ag["close"])
-        verts = verts + [(_r(p[0]), _r(p[1])) for p in ag["pts"]]
+        if ag.get("move_only"):
+            # the pen is only MOVED (to a point that may lie outside everything drawn so far) before the builder is converted again
+            fb.move_to(ag["pts"][0][0], ag["pts"][0][1])
+            verts = verts + [(_r(ag["pts"][0][0]), _r(ag["pts"][0][1]))]
+        else:
+            fb.add_line_segments([tuple(p) for p in ag["pts"]], close=ag["close"])
+            verts = verts + [(_r(p[0]), _r(p[1])) for p in ag["pts"]]
         sp2 = fb.convert_to_shape(ag["ox"], ag["oy"])
         _check_freeform(w, sp2, verts, sx, sy, sc, ag["ox"], ag["oy"])
         w.stats.hit("c17_freeform_builder_reused")
@@ -601,6 +610,16 @@ def pinned_traces(tier):
         for attr, v in (("left", 4000000), ("height", 9000000)):
             evs.append({"op": "c17.group_move", "slide": 0, "path": [0, 0], "attr": attr, "v": v, "inside": True, "which": which, "member": member})
     out.append({"property": ID, "seed": "moved-group-then-add-inside-box", "tier": "pinned", "config": {"pinned": True}, "start": [{"deck": "default"}], "events": evs})
+    # freeform: vertices as a one-shot iterator; the pen only moved (beyond everything drawn) before the builder is converted a second time
+    for k, (again, it) in enumerate((({"pts": [[-400, -300]], "close": False, "ox": 0, "oy": 0, "move_only": True}, False),
+                                     ({"pts": [[2000, 50]], "close": False, "ox": 10, "oy": 10, "move_only": True}, True), (None, True))):
+        f2 = dict(ff, contours=[{"move": [0, 0], "pts": [[50, 0], [50, 50], [0, 50]], "close": True}, {"move": [10, 10], "pts": [[20, 30], [5, 5]], "close": False}], peek=(k == 0))
+        if again:
+            f2["again"] = again
+        if it:
+            f2["iter"] = True
+        evs = [{"op": "add_slide", "layout": 6}, dict(base, op="c17.freeform", slide=0, ff=f2), {"op": "checkpoint", "sink": "seekable"}, {"op": "restart"}]
+        out.append({"property": ID, "seed": "freeform-iterator-and-move-only-%d" % k, "tier": "pinned", "config": {"pinned": True}, "start": [{"deck": "default"}], "events": evs})
     # members handed to add_group_shape as an iterable that fails part-way (second picture unreadable), eager and lazy, top level and nested
     ok_src, bad_src = {"via": "stream", "pos": 0}, {"via": "stream", "pos": 0, "fault": {"kind": "eio", "at": 1}}
     mk = lambda kind, x, src: {"kind": kind, "x": x, "y": x // 2, "cx": 400000, "cy": 300000, "img": img, "src": src}  # noqa: E731
